@@ -9,12 +9,24 @@ Definition ET : expr := EConst DT.
 
 Ltac differ := split; [let H := fresh "H" in intro H; vm_compute in H; discriminate H | vm_compute; reflexivity].
 
-(* (if (values nil t) 1 2) : Go tests the Values object, which is not nil *)
+(* repaired (repo_fixes/C01-19): the tests of if, when, unless, cond, and, do, do* look at the primary value.
+   (if (values nil t) 1 2) => 2 ; (list (when (values nil 1) 3) (unless (values nil 1) 4) (cond ((values nil 1) 5) (t 6))
+   (and (values nil 1) 7) (do ((i 0 (1+ i))) ((values (> i 1) nil) i)))  => (nil 4 6 nil 2), in every mode *)
 Definition w_values_test := [EIf (EValues [ENil; ET]) (I 1) (Some (I 2))].
-Lemma values_in_test_refuted : fst (runM 60 w_values_test) <> fst (runS 60 w_values_test) /\ guardb 60 w_values_test = false.
-Proof. differ. Qed.
-(* (let ((x (values nil 1))) (if x 1 2)) : let stores the Values object *)
-Definition w_let_values := [ELet [("x", EValues [ENil; I 1])] [EIf (EVar "x") (I 1) (Some (I 2))]].
+Definition w_values_tests :=
+  [EPrim PList [EWhen (EValues [ENil; I 1]) [I 3]; EUnless (EValues [ENil; I 1]) [I 4];
+                ECond [(EValues [ENil; I 1], [I 5]); (ET, [I 6])]; EAnd [EValues [ENil; I 1]; I 7];
+                EDo false [("i", I 0, Some (EPrim PInc [EVar "i"]))] (EValues [EPrim PGt [EVar "i"; I 1]; ENil]) [EVar "i"] []]].
+Example tests_look_at_primary_value :
+  forallb (fun m => match fst (run m 60 w_values_test), fst (run m 60 w_values_tests) with
+                    | Ok (VInt 2), Ok (VList [VNil; VInt 4; VInt 6; VNil; VInt 2]) => true | _, _ => false end) [Slip; Ref; Chk] = true.
+Proof. vm_compute; reflexivity. Qed.
+(* what a test sees is the same in every mode: the primary value *)
+Lemma truthy_primary : forall m v, truthy m v = Ok (negb (is_nil (primary v))).
+Proof. reflexivity. Qed.
+(* (let ((x (values 1 2))) (multiple-value-bind (a b) x (list a b))) : let stores the Values object, the variable
+   then yields both values: (1 2) instead of (1 nil) *)
+Definition w_let_values := [ELet [("x", EValues [I 1; I 2])] [EMvb ["a"; "b"] (EVar "x") [EPrim PList [EVar "a"; EVar "b"]]]].
 Lemma let_binds_values_refuted : fst (runM 60 w_let_values) <> fst (runS 60 w_let_values) /\ guardb 60 w_let_values = false.
 Proof. differ. Qed.
 (* repaired (repo_fixes/C01-10): progn is the sequence of its forms and returns every value of the last one.
